@@ -408,6 +408,8 @@ func (c *control) dirPercent(colon, at bool, params []any) {
 	n := 1
 	if 0 < len(params) {
 		switch tp := params[0].(type) {
+		case nil:
+			// A nil from a v parameter is the same as an omitted parameter.
 		case int:
 			n = tp
 		case slip.Integer:
@@ -425,6 +427,8 @@ func (c *control) dirAmp(colon, at bool, params []any) {
 	n := 1
 	if 0 < len(params) {
 		switch tp := params[0].(type) {
+		case nil:
+			// A nil from a v parameter is the same as an omitted parameter.
 		case int:
 			n = tp
 		case slip.Integer:
@@ -520,6 +524,8 @@ func (c *control) dirMove(colon, at bool, params []any) {
 	var changed bool
 	if 0 < len(params) {
 		switch tp := params[0].(type) {
+		case nil:
+			// A nil from a v parameter is the same as an omitted parameter.
 		case int:
 			n = tp
 			changed = true
@@ -1455,6 +1461,8 @@ func (c *control) dirTilde(colon, at bool, params []any) {
 	n := 1
 	if 0 < len(params) {
 		switch tp := params[0].(type) {
+		case nil:
+			// A nil from a v parameter is the same as an omitted parameter.
 		case int:
 			n = tp
 		case slip.Integer:
@@ -1472,6 +1480,8 @@ func (c *control) dirCond(colon, at bool, params []any) {
 	n := -1
 	if 0 < len(params) {
 		switch tp := params[0].(type) {
+		case nil:
+			// A nil from a v parameter is the same as an omitted parameter.
 		case int:
 			n = tp
 		case slip.Integer:
@@ -1697,6 +1707,8 @@ func (c *control) dirPage(colon, at bool, params []any) {
 	n := 1
 	if 0 < len(params) {
 		switch tp := params[0].(type) {
+		case nil:
+			// A nil from a v parameter is the same as an omitted parameter.
 		case int:
 			n = tp
 		case slip.Integer:
